@@ -17,7 +17,8 @@ Inductive cmd : Type :=
 | CStep (s : hstep Z)
 | CGet (r off : nat)          (* objects[r].get_byte(off) *)
 | CUnwrap (r : nat)           (* objects[r].unwrap() *)
-| CWord (r off : nat).        (* objects[r].slice(off, off + 32).unwrap() *)
+| CWord (r off : nat)         (* objects[r].slice(off, off + 32).unwrap() *)
+| CSetItem (r : nat) (start stop : option nat) (v : hval Z).   (* objects[r][start:stop] = v *)
 
 (* value encodings:  0 sym n d1..dn start len | 1 r a b | 2 r *)
 Definition dec_val (l : list Z) : option (hval Z * list Z) :=
@@ -48,7 +49,7 @@ Definition dec_val (l : list Z) : option (hval Z * list Z) :=
 
 (* command encodings:
    0 | 1 r | 2 r a b | 3 r <val> | 4 r off sym x | 5 r a b <val> | 6 r off <val>
-   7 r off | 8 r | 9 r off *)
+   7 r off | 8 r | 9 r off | 10 r has_start start has_stop stop <val> *)
 Fixpoint dec_cmds (fuel : nat) (l : list Z) : list cmd :=
   match fuel with
   | O => []
@@ -103,6 +104,17 @@ Fixpoint dec_cmds (fuel : nat) (l : list Z) : list cmd :=
             match r with o :: r1 => CUnwrap (zn o) :: dec_cmds f r1 | _ => [] end
           else if t =? 9 then
             match r with o :: off :: r1 => CWord (zn o) (zn off) :: dec_cmds f r1 | _ => [] end
+          else if t =? 10 then
+            match r with
+            | o :: hs :: a :: he :: b :: r1 =>
+                match dec_val r1 with
+                | Some (v, r2) =>
+                    CSetItem (zn o) (if hs =? 1 then Some (zn a) else None)
+                             (if he =? 1 then Some (zn b) else None) v :: dec_cmds f r2
+                | None => []
+                end
+            | _ => []
+            end
           else []
       end
   end.
@@ -140,19 +152,30 @@ Definition out_seg (s : seg Z) : list Z :=
 
 Definition framed (l : list Z) : list Z := nz (List.length l) :: l.
 
+Definition exec_step (h : heap Z) (s : hstep Z) (k : heap Z -> list Z) : list Z :=
+  match h_step Z 0 FUEL h s with
+  | Some (h', raised) =>
+      match obs_all h' (List.length h') O with
+      | Some o => framed ([if raised then 1 else 0; nz (List.length h')] ++ o) ++ k h'
+      | None => [1; -1]
+      end
+  | None => [1; -1]
+  end.
+
 (* every command emits  n x1..xn ; a model error emits  1 -1  and stops *)
 Fixpoint exec (h : heap Z) (cs : list cmd) : list Z :=
   match cs with
   | [] => []
   | c :: r =>
+      let exec_after := fun h' => exec h' r in
       match c with
-      | CStep s =>
-          match h_step Z 0 FUEL h s with
-          | Some (h', raised) =>
-              match obs_all h' (List.length h') O with
-              | Some o => framed ([if raised then 1 else 0; nz (List.length h')] ++ o) ++ exec h' r
-              | None => [1; -1]
-              end
+      | CStep s => exec_step h s exec_after
+      | CSetItem o os oe v =>
+          (* __setitem__ resolves the bounds against the receiver's current length, then
+             calls set_slice (ByteVecModel.setitem_slice) *)
+          match h_load Z FUEL h o with
+          | Some t =>
+              exec_step h (HMut o (HSetSlice (py_or os 0) (py_if_not_none oe (blen t)) v)) exec_after
           | None => [1; -1]
           end
       | CGet o off =>
